@@ -207,7 +207,7 @@ class GenuineSGX:
                                      (2**32 + rng.randrange(1000)).to_bytes(8, "big")])
         self.depth = depth
         self.auth_len = auth_len
-        self.page_size = page_size or rng.choice([100, 200, 255])
+        self.page_size = page_size or rng.choice([79, 79, 100, 200, 255])
         self.alter = alter or {}
         self._alt_cache = {}
         self.include_root = include_root
